@@ -59,7 +59,7 @@ def tensor(data, requires_grad=False, dtype=None, device=None) -> 'Tensor':
     """
     Creates a Tensor from a numpy array
     """
-    data = np.array(data, dtype=default_type__)
+    data = np.array(data, dtype=default_type__ if dtype is None else dtype)
     return Tensor(data, requires_grad=requires_grad, dtype=dtype, device=device)
 
 def empty(*shape, dtype=None, requires_grad=False, name=None, device=None):
@@ -172,9 +172,11 @@ class Tensor:
         if isinstance(data, Tensor):
             self.copy_from(data); return
         
+        if isinstance(data, np.generic):
+            data = np.asarray(data) # numpy scalars (0-d results) keep their dtype
         if not isinstance(data, np.ndarray):
             try:
-                data = np.array(data, dtype=default_type__)
+                data = np.array(data, dtype=default_type__ if dtype is None else dtype)
             except: 
                 raise RuntimeError("data must be convertible into a numpy array")
         if dtype is not None and data.dtype != dtype: data = data.astype(dtype)
@@ -434,14 +436,18 @@ class Tensor:
     # ******* Basic ops *******
     # *************************
     
+    def __scalar_dtype(self):
+        """ dtype used to wrap a Python scalar operand: a floating tensor keeps its own dtype """
+        return self.dtype if self.is_floating_point else None
+    
     def __add__(self, summand:'Tensor') -> 'Tensor':
-        summand = summand if isinstance(summand, Tensor) else Tensor(summand, device=self.device)
+        summand = summand if isinstance(summand, Tensor) else Tensor(summand, device=self.device, dtype=self.__scalar_dtype())
         from . import functional as F
         return  F.add(self, summand)
         
         
     def __mul__(self, factor:'Tensor') -> 'Tensor':
-        factor = factor if isinstance(factor, Tensor) else Tensor(factor, device=self.device)
+        factor = factor if isinstance(factor, Tensor) else Tensor(factor, device=self.device, dtype=self.__scalar_dtype())
         from . import functional as F
         return F.mul(self, factor)
     
